@@ -166,6 +166,11 @@ func runCrashPoint(c *vh.Ctx, ch *chainT, idx int, cache *core.CacheConfig, cnam
 				return
 			}
 			got := observe(n.bc, ch, false)
+			if headerHeadBehind(n.bc, got, want) {
+				c.Violate(sigHeaderBehind, whatHeaderBehind(p.k+1, p.j), rep)
+				n.bc.Stop()
+				return
+			}
 			for k, v := range want {
 				if got[k] != v {
 					rep["observable"], rep["reference"], rep["observed"] = k, clip(v), clip(got[k])
@@ -175,5 +180,105 @@ func runCrashPoint(c *vh.Ctx, ch *chainT, idx int, cache *core.CacheConfig, cnam
 			}
 			n.bc.Stop()
 		}
+	}
+}
+
+// A consequence of the write order of BlockChain.insert (number->hash entry, then head-block
+// pointer, then — only if the number index did not already name the block — header head and
+// fast-block head): a crash after the number entry and before the pointers restarts on the old
+// head; when the same block is imported again, insert finds the number index already naming it,
+// skips SetCurrentHeader / WriteHeadFastBlockHash, and the node runs with CurrentBlock = the
+// block but CurrentHeader / CurrentFastBlock one behind.  Same root cause as the C04 finding
+// crash-window-canon-before-head; here it shows as a result of import that depends on the history.
+const sigHeaderBehind = "crash-window-canon-before-head/header-head-stays-behind-after-reimport"
+
+func whatHeaderBehind(block, writes int) string {
+	return fmt.Sprintf("crash %d writes into the import of block %d, restart, the same block imported again: CurrentBlock is the block, CurrentHeader and CurrentFastBlock stay at its parent (BlockChain.insert skips them because the number index was already written before the crash)", writes, block)
+}
+
+// headerHeadBehind: everything equals the reference except the header / fast-block heads
+func headerHeadBehind(bc *core.BlockChain, got, want map[string]string) bool {
+	if got["head"] != want["head"] || got["headheader"] == want["headheader"] {
+		return false
+	}
+	for k, v := range want {
+		if k != "headheader" && got[k] != v {
+			return false
+		}
+	}
+	return bc.CurrentHeader().Hash() == bc.CurrentBlock().ParentHash()
+}
+
+func cloneDB(src *aquadb.MemDatabase) *aquadb.MemDatabase {
+	dst := aquadb.NewMemDatabase()
+	for _, k := range src.Keys() {
+		v, _ := src.Get(k)
+		dst.Put(k, v)
+	}
+	return dst
+}
+
+// partCrashScan: every write boundary of the import of the last block (archive mode), from a
+// cloned database: crash, restart, import the block again; the three heads must be the block.
+func partCrashScan(c *vh.Ctx, ch *chainT, idx int) {
+	cache := &core.CacheConfig{Disabled: true}
+	last := len(ch.blocks) - 1
+	base := newCrashNode(c, ch, cache)
+	if _, err := base.insert(ch.blocks[:last]); err != nil {
+		c.Violate("valid-chain-refused/crash-scan", err.Error(), replayOf(ch, nil))
+		return
+	}
+	base.bc.Stop()
+	fresh := func() *crashNode {
+		n := &crashNode{db: &crashDB{MemDatabase: cloneDB(base.db.MemDatabase), budget: -1}, ch: ch, cfg: cache}
+		if err := n.open(); err != nil {
+			c.Fatal("crash scan: cannot open a cloned database: %v", err)
+		}
+		return n
+	}
+	cnt := fresh()
+	w0 := cnt.db.writes
+	cnt.insert(ch.blocks[last:])
+	total := cnt.db.writes - w0
+	cnt.bc.Stop()
+	tip := ch.blocks[last].Hash()
+	for j := 0; j < total; j++ {
+		n := fresh()
+		n.db.budget = j
+		crashed, err := n.insert(ch.blocks[last:])
+		n.db.budget = -1
+		c.Eval("crash-scan:last-block/every-write-boundary", fmt.Sprintf("scan/%d/%d", idx, j))
+		rep := replayOf(ch, map[string]interface{}{"history": "crash", "cache": "archive", "crash_in_block": last + 1, "after_writes": j, "batch_blocks": 1})
+		if err != nil || !crashed {
+			n.bc.Stop()
+			continue
+		}
+		old := n.bc
+		if err := n.open(); err != nil {
+			rep["error"] = err.Error()
+			c.Violate("restart-after-crash-fails/archive", fmt.Sprintf("after a crash %d writes into the import of block %d the node cannot be restarted: %v", j, last+1, err), rep)
+			continue
+		}
+		old.Stop() // archive mode: Stop writes nothing; it only ends the abandoned object's goroutines
+		if _, err := n.insert(ch.blocks[last:]); err != nil {
+			rep["error"] = err.Error()
+			c.Violate("history-import-error/restart-after-crash/archive", fmt.Sprintf("after a crash %d writes into the import of block %d and a restart, the block is refused: %v", j, last+1, err), rep)
+			n.bc.Stop()
+			continue
+		}
+		hb, hh, hf := n.bc.CurrentBlock().Hash(), n.bc.CurrentHeader().Hash(), n.bc.CurrentFastBlock().Hash()
+		switch {
+		case hb == tip && hh == tip && hf == tip:
+		case hb == tip && hh == ch.blocks[last].ParentHash():
+			c.Violate(sigHeaderBehind, whatHeaderBehind(last+1, j), rep)
+		case hb == tip && hh == tip && hf == ch.blocks[last].ParentHash():
+			// the crash fell between SetCurrentHeader and WriteHeadFastBlockHash: after the restart the block
+			// is known and current, so the second import is ignored and nothing repairs the fast-block head
+			c.Violate("crash-window-head-pointers/fast-block-head-stays-behind", fmt.Sprintf("crash %d writes into the import of block %d (between the header-head and the fast-block-head writes of BlockChain.insert), restart, the same block offered again (ignored as known): CurrentBlock and CurrentHeader are the block, CurrentFastBlock stays at its parent", j, last+1), rep)
+		default:
+			rep["heads"] = fmt.Sprintf("block %x header %x fast %x", hb.Bytes()[:4], hh.Bytes()[:4], hf.Bytes()[:4])
+			c.Violate("history-divergence/restart-after-crash/archive", fmt.Sprintf("after a crash %d writes into the import of block %d, a restart and the block imported again, the heads are not the block", j, last+1), rep)
+		}
+		n.bc.Stop()
 	}
 }
